@@ -1,7 +1,7 @@
 SPECIFICATION Spec
 CONSTANTS
-  CELLS <- CELLS_q
-  SCR <- SCR_q
+  CELLS <- CELLS_cx
+  SCR <- SCRWV_q
   SCRWV <- SCRWV_q
   CENTS <- CENTS_none
   PROBES <- PROBES_std
@@ -10,7 +10,8 @@ CONSTANTS
   MODFIX = FALSE
   COLFIX = TRUE
   WVFIX = TRUE
-  NTRYFIX = TRUE
+  NTRYFIX = FALSE
   MAXIT = 10
-INVARIANT MinkAlways
+INVARIANT FindLatticeOK
+INVARIANT FindLatticeAnyDir
 CHECK_DEADLOCK FALSE
